@@ -241,6 +241,8 @@ class Emitter:
                 # observed rendering: a field declared as the bare TypeVar stays {} (Any) in the schema of a specialisation,
                 # a TypeVar nested in the field type (List[T], Optional[T]) is replaced by the type argument
                 fty = "TAny" if f["type"][0] == "tvar" else self.ty(G.subst(f["type"], tenv))
+                if (f.get("ser") or ("",))[0] == "fn":
+                    fty = self.ty(f["ser"][1])      # the schema describes the return annotation of the serialize function
                 fs.append(f"(mkF {coq_str(f['name'])} {coq_str(key)} {fty} "
                           f"{cbool(f['default'] is not None)} {cbool(f['init'])} {ov[f.get('nt_override')]} "
                           f"{cbool(f['default'] is not None and f['default'][1] == 'None')})")
@@ -250,12 +252,7 @@ class Emitter:
             if d["kind"] == "data" and d["tvars"]:
                 continue
             if d["kind"] == "data":
-                fs = []
-                for f in d["fields"]:
-                    key = f["alias"] if f["alias"] is not None else f["name"]
-                    fs.append(f"(mkF {coq_str(f['name'])} {coq_str(key)} {self.ty(f['type'])} {cbool(f['default'] is not None)} {cbool(f['init'])} {ov[f.get('nt_override')]} {cbool(f['default'] is not None and f['default'][1] == 'None')})")
-                cfg = d.get("cfg") or {}
-                classes.append(f"(mkC {coq_str(d['name'])} {coq_str(d['clsname'])} {cl(fs)} {cbool(cfg.get('nt_as_dict'))} {cbool(cfg.get('omit_none'))})")
+                classes.append(data_entry(d, d["name"], {}))
             elif d["kind"] == "nt":
                 fs = [f"(mkF {coq_str(f['name'])} {coq_str(f['name'])} {self.ty(f['type'])} {cbool(f['default'] is not None)} true None false)"
                       for f in d["fields"]]
@@ -376,7 +373,13 @@ class Emitter:
             raise OutOfModel("value matches no union member")
         if k == "data":
             d = self.tbl.by_name[t[1]]
-            return "(VObj " + cl([f"({coq_str(f['name'])}, {self.value(f['type'], getattr(v, f['name']))})" for f in d["fields"]]) + ")"
+            out = []
+            for f in d["fields"]:
+                if (f.get("ser") or ("",))[0] == "fn":      # the member is what the user's serialize function returns
+                    out.append(f"({coq_str(f['name'])}, {self.value(f['ser'][1], eval(G.val_src(f['ser'][2]), self.ns))})")
+                else:
+                    out.append(f"({coq_str(f['name'])}, {self.value(f['type'], getattr(v, f['name']))})")
+            return "(VObj " + cl(out) + ")"
         if k == "nt":
             d = self.tbl.by_name[t[1]]
             return "(VList " + cl([self.value(f["type"], x) for f, x in zip(d["fields"], v)]) + ")"
